@@ -37,8 +37,11 @@ ASSUMPTIONS = [
     "delta-v must be delivered",
     "dkep: inclination / node increments are applied where dkep2aol() says; increments up to 1e5 m / 0.05 rad; "
     "0.12 < i < pi - 0.12 so that the node is defined before and after",
-    "frames attached to orbits: <= 30 registrations per process, parent EME2000, reference orbit "
-    "propagated by the library's Kepler propagator (C05) - the oracle propagates it independently",
+    "frames attached to orbits: <= 30 registrations per process; reference = Kepler orbit / bare state given in "
+    "EME2000, TEME, MOD, GCRF, G50 or TOD (oracle propagates it independently in that frame), or an SGP4 orbit from a "
+    "TLE in TEME (states from an untouched twin object); parent EME2000, MOD or GCRF; 3-6 conversions per frame at "
+    "two dates (reference -> origin, a second state in, round trip, via an intermediate frame, repeats), changes of "
+    "built-in frame of the oracle's inputs done by the library on fresh objects (C02)",
 ]
 LEVEL_TEXT = "exploration"
 LEVEL_NOTE = ("Randomised search; the adaptive integrators (rkf54, dopri54) and backward propagation are not "
@@ -310,102 +313,168 @@ def check_projection(case):
 # ------------------------------------------------------------------ attached frame
 
 
+REF_FRAMES = ["EME2000", "TEME", "MOD", "GCRF", "G50", "TOD"]
+PARENTS = ["EME2000", "EME2000", "EME2000", "MOD", "GCRF"]
+GIVEN_IN = ["parent", "EME2000", "ref", "TOD"]
+VIA = ["MOD", "ITRF", "TEME", "GCRF", "PEF"]
+TLES = {
+    "iss": ("ISS (ZARYA)",
+            "1 25544U 98067A   18124.55610684  .00001524  00000-0  30197-4 0  9997",
+            "2 25544  51.6421 236.2139 0003381  47.8509  47.6767 15.54198229111731"),
+    "molniya": ("MOLNIYA 1-90",
+                "1 24960U 97054A   18123.22759647  .00000163  00000-0  24467-3 0  9999",
+                "2 24960  62.6812 182.7824 6470982 294.8616  12.8538  3.18684355160009"),
+}
+
+
 @st.composite
 def attached_case(draw):
     hyp = draw(st.integers(0, 9)) < 2
+    ref = draw(st.sampled_from(["kepler", "kepler", "kepler", "tle", "tle", "statevector"]))
+    ops = []
+    for _ in range(draw(st.integers(3, 6))):
+        ops.append(dict(op=draw(st.sampled_from(["own", "own", "state", "state", "round", "via", "repeat"])),
+                        date=0 if draw(st.integers(0, 3)) else 1,
+                        given=draw(st.sampled_from(GIVEN_IN)), via=draw(st.sampled_from(VIA)),
+                        near=draw(st.booleans())))
     return dict(el=draw(go.elements(elliptic=not hyp, hyperbolic=hyp, emax_ell=0.9, hmax=3.0)),
                 other=draw(go.elements(hyperbolic=False, emax_ell=0.9)),
-                orientation=draw(st.sampled_from([None, "QSW", "TNW", "qsw", "Tnw"])),
-                ref=draw(st.sampled_from(["orbit", "orbit", "statevector"])),
+                orientation=draw(st.sampled_from([None, "QSW", "TNW", "qsw", "Tnw", "QSW", "TNW"])),
+                ref=ref, tle=draw(st.sampled_from(sorted(TLES))),
+                ref_frame=draw(st.sampled_from(REF_FRAMES)) if draw(st.integers(0, 2)) else "EME2000",
+                parent=draw(st.sampled_from(PARENTS)),
                 ref_form=draw(st.sampled_from(["cartesian", "cartesian", "cartesian", "keplerian"])),
-                dt=draw(st.one_of(st.just(0.0), fu(-3000.0, 3000.0))),
-                t=draw(go.uniform_int(0, 10 * 365 * 86400 * 10**6)),
-                near=draw(st.booleans()), sep=draw(vec3(-1.0, 5.0)))
+                dts=[draw(st.one_of(st.just(0.0), fu(-3000.0, 3000.0))), draw(fu(-3000.0, 3000.0))],
+                t=draw(go.uniform_int(0, 10 * 365 * 86400 * 10**6)), sep=draw(vec3(-1.0, 5.0)), ops=ops)
 
 
 def check_attached(case):
+    """A frame attached to a (moving) reference orbit given in `ref_frame`, orientation None / QSW / TNW built on
+    `parent`; then a short sequence of conversions at two dates, each compared with the offset / triad oracle."""
     from beyond.dates import timedelta
-    from beyond.orbits import Orbit, StateVector
+    from beyond.frames.frames import get_frame
+    from beyond.io.tle import Tle
+    from beyond.orbits import StateVector
 
     mu = mu_earth()
     el = case["el"]
-    c0 = cart(el, mu)
-    d0 = mkdate(case["t"])
     _counter[0] += 1
     name = f"VF17S{_shard}N{_counter[0]}"
-    # the same state, possibly held in another form (C01: forms are views of one state)
-    ref = StateVector(c0, d0, "cartesian", "EME2000").copy(form=case.get("ref_form", "cartesian"))
-    if case["ref"] == "orbit":
-        ref = ref.as_orbit("Kepler")
-    dt = case["dt"]  # (a bare state has no motion: the frame stays where the state is)
-    kw = {} if case["orientation"] is None else dict(orientation=case["orientation"])
-    frame = ref.as_frame(name, **kw)
-    date = d0 + timedelta(seconds=dt)
-    dt = (date - d0).total_seconds()
-    centre = tb.propagate_uv(c0, dt, mu) if case["ref"] == "orbit" else c0
-    T = np.eye(3) if case["orientation"] is None else ig.triad(centre, case["orientation"])
-    k = 1 / abs(1 - el["e"])
-    if el["e"] > 1:
-        k *= math.cosh(el["anom"]) ** 2
-    if case.get("ref_form", "cartesian") != "cartesian":
-        k = 10 * k / math.sin(el["i"])  # C01: 1e-11 kappa / sin i for the form conversion
-    rn = float(np.linalg.norm(centre[:3]))
-    vn = float(np.linalg.norm(centre[3:]))
-    # the library moves the reference orbit with its analytical Kepler propagator (C05: 1e-9 kappa relative)
-    ptol = 1e-6 + (1e-9 * k * rn if (case["ref"] == "orbit") else 1e-9 * rn)
-    vtol = 1e-9 + (1e-9 * k * vn if (case["ref"] == "orbit") else 1e-9 * vn)
-    worst = 0.0
-
-    # (1) the orbit itself sits at the origin of its frame
-    own = ref.propagate(date) if case["ref"] == "orbit" else StateVector(c0, date, "cartesian", "EME2000")
-    if case.get("ref_form", "cartesian") != "cartesian":
-        ptol, vtol = 1e-6 + 1e-9 * k * rn, 1e-9 + 1e-9 * k * vn
-    ptol0, vtol0 = ptol, vtol
-    z = np.asarray(own.copy(frame=frame, form="cartesian").base, float)
-    if not np.all(np.isfinite(z)):
-        raise Violation("attached-nonfinite", f"orbit in its own frame: {z.tolist()}")
-    dp, dv = float(np.linalg.norm(z[:3])), float(np.linalg.norm(z[3:]))
-    worst = max(worst, dp / ptol0, dv / vtol0)
-    if dp > ptol0 or dv > vtol0:
-        raise Violation("attached-origin", f"the orbit expressed in the frame attached to it is at {dp:.6g} m, "
-                        f"{dv:.6g} m/s from the origin (orientation {case['orientation']!r}, ref {case['ref']} held in form "
-                        f"{case.get('ref_form', 'cartesian')}, dt {dt})", ref_form=case.get("ref_form", "cartesian"))
-    # (2) another state: position axes are the triad, conversion is lossless
-    if case["near"]:
-        x = centre + np.concatenate([case["sep"], np.asarray(case["sep"]) * 1e-3])
+    kind = case["ref"]
+    P = case["parent"]
+    k = 1.0
+    if kind == "tle":
+        text = "\n".join(TLES[case["tle"]])
+        ref = Tle(text).orbit()
+        twin = Tle(text).orbit()          # an untouched twin gives the reference states (SGP4: C07)
+        R = "TEME"
+        d0 = ref.date
+        ref_form = "tle"
     else:
-        oe = case["other"]
-        x = cart(oe, mu)
-    sv = StateVector(x, date, "cartesian", "EME2000")
-    loc = np.asarray(sv.copy(frame=frame).base, float)
-    if not np.all(np.isfinite(loc)):
-        raise Violation("attached-nonfinite", f"state in the attached frame: {loc.tolist()}")
-    want_r = T @ (x[:3] - centre[:3])
-    want_v = T @ (x[3:] - centre[3:])
-    sep = float(np.linalg.norm(x[:3] - centre[:3]))
-    dp = float(np.linalg.norm(loc[:3] - want_r))
-    t2 = ptol + 1e-9 * k * sep
-    worst = max(worst, dp / t2)
-    if dp > t2:
-        raise Violation("attached-axes", f"position in frame {case['orientation']!r} = {loc[:3].tolist()}, triad . (r - r_orbit) = "
-                        f"{want_r.tolist()} (diff {dp:.6g} m, tol {t2:.3g})")
-    # velocity: the library documents instantaneous axes (no rotation rate): T (v - v_orbit)
-    dvv = float(np.linalg.norm(loc[3:] - want_v))
-    t3 = vtol + 1e-9 * k * float(np.linalg.norm(x[3:] - centre[3:]))
-    worst = max(worst, dvv / t3)
-    if dvv > t3:
-        raise Violation("attached-axes-velocity", f"velocity in frame = {loc[3:].tolist()}, triad . (v - v_orbit) = "
-                        f"{want_v.tolist()} (diff {dvv:.6g} m/s)")
-    back = np.asarray(sv.copy(frame=frame).copy(frame="EME2000").base, float)
-    dp = float(np.linalg.norm(back[:3] - x[:3]))
-    dvv = float(np.linalg.norm(back[3:] - x[3:]))
-    rt_p = 1e-6 + 1e-12 * (rn + float(np.linalg.norm(x[:3])))
-    rt_v = 1e-9 + 1e-12 * (vn + float(np.linalg.norm(x[3:])))
-    worst = max(worst, dp / rt_p, dvv / rt_v)
-    if dp > rt_p or dvv > rt_v:
-        raise Violation("attached-roundtrip", f"parent -> frame -> parent moves the state by {dp:.6g} m, {dvv:.6g} m/s")
-    cls = el_classes(el) + [f"orient:{case['orientation']}", f"ref:{case['ref']}", "dt=0" if dt == 0 else "dt!=0",
-                            "near" if case["near"] else "far", f"ref_form:{case.get('ref_form', 'cartesian')}"]
+        R = case["ref_frame"]
+        c0 = cart(el, mu)                 # coordinates in the axes of R
+        d0 = mkdate(case["t"])
+        ref_form = case["ref_form"]
+        ref = StateVector(c0, d0, "cartesian", R).copy(form=ref_form)
+        if kind == "kepler":
+            ref = ref.as_orbit("Kepler")
+        k = 1 / abs(1 - el["e"])
+        if el["e"] > 1:
+            k *= math.cosh(el["anom"]) ** 2
+        if ref_form != "cartesian":
+            k = 10 * k / math.sin(el["i"])
+    kw = {}
+    if case["orientation"] is not None:
+        kw["orientation"] = case["orientation"]
+    if P != "EME2000":
+        kw["parent"] = get_frame(P)
+    frame = ref.as_frame(name, **kw)
+    dates = [d0 + timedelta(seconds=x) for x in case["dts"]]
+
+    def centre_in(j, target):
+        """reference state at date j, expressed in built-in frame `target` (fresh objects only)"""
+        dt = (dates[j] - d0).total_seconds()
+        if kind == "tle":
+            c = twin.propagate(dates[j]).copy(form="cartesian")
+        else:
+            cr = tb.propagate_uv(c0, dt, mu) if kind == "kepler" else c0
+            c = StateVector(cr, dates[j], "cartesian", R)
+        return np.asarray((c if target == R else c.copy(frame=target)).base, float)
+
+    def expected(j, x_state):
+        """x_state: fresh StateVector in a built-in frame -> coordinates in the attached frame"""
+        if case["orientation"] is None:
+            # axes of the reference orbit's own frame, origin at the orbit
+            xr = np.asarray((x_state if x_state.frame.name == R else x_state.copy(frame=R)).base, float)
+            return xr - centre_in(j, R), centre_in(j, R)
+        c = centre_in(j, P)
+        xp = np.asarray((x_state if x_state.frame.name == P else x_state.copy(frame=P)).base, float)
+        T = ig.triad(c, case["orientation"])
+        return np.concatenate([T @ (xp[:3] - c[:3]), T @ (xp[3:] - c[3:])]), c
+
+    worst = 0.0
+    last = None
+    trail = []
+    for n_op, op in enumerate(case["ops"]):
+        j = op["date"]
+        what = op["op"]
+        if what == "repeat":
+            if last is None:
+                what = "own"
+            else:
+                what, op = last
+                j = op["date"]
+        trail.append(f"{what}@{j}")
+        G = {"parent": P, "ref": R}.get(op["given"], op["given"])
+        if what == "own":
+            own = (ref.propagate(dates[j]) if kind != "statevector"
+                   else StateVector(c0, dates[j], "cartesian", R))
+            x_fresh = StateVector(centre_in(j, R), dates[j], "cartesian", R)
+            got = np.asarray(own.copy(frame=frame, form="cartesian").base, float)
+            want, c = np.zeros(6), centre_in(j, R)
+            x_ref = c
+        else:
+            if op["near"]:
+                base = centre_in(j, G)
+                xg = base + np.concatenate([case["sep"], np.asarray(case["sep"]) * 1e-3])
+            else:
+                oe = case["other"]
+                xg = cart(oe, mu)
+            x_fresh = StateVector(xg, dates[j], "cartesian", G)
+            want, c = expected(j, StateVector(xg, dates[j], "cartesian", G))
+            x_ref = xg
+            sv = StateVector(xg, dates[j], "cartesian", G)
+            if what == "state":
+                got = np.asarray(sv.copy(frame=frame).base, float)
+            elif what == "via":
+                got = np.asarray(sv.copy(frame=op["via"]).copy(frame=frame).base, float)
+            else:  # round trip: checked against the state itself, in its own frame
+                got = np.asarray(sv.copy(frame=frame).copy(frame=G).base, float)
+                want = xg
+        last = (what, op)
+        if not np.all(np.isfinite(got)):
+            raise Violation("attached-nonfinite", f"{what}: {got.tolist()} [{' '.join(trail)}]")
+        rn = float(np.linalg.norm(c[:3])) + float(np.linalg.norm(x_ref[:3]))
+        vn = float(np.linalg.norm(c[3:])) + float(np.linalg.norm(x_ref[3:]))
+        # the library moves a Kepler reference with its analytical propagator (C05: 1e-9 kappa relative)
+        ptol = 1e-6 + 1e-9 * k * rn
+        vtol = 1e-9 + 1e-9 * k * vn
+        dp = float(np.linalg.norm(got[:3] - want[:3]))
+        dv = float(np.linalg.norm(got[3:] - want[3:]))
+        worst = max(worst, dp / ptol, dv / vtol)
+        if dp > ptol or dv > vtol:
+            bucket = {"own": "attached-origin", "round": "attached-roundtrip"}.get(what, "attached-axes")
+            raise Violation(bucket, f"conversion {n_op + 1} ({what}, date {j}, state given in {G}): off by {dp:.6g} m, {dv:.6g} m/s "
+                            f"(allowed {ptol:.3g} m, {vtol:.3g} m/s); frame attached to a {kind} reference in {R} held in form "
+                            f"{ref_form}, orientation {case['orientation']!r}, parent {P}; conversions so far: {' '.join(trail)}",
+                            ref_form=ref_form, what=what)
+    cls = [f"orient:{case['orientation']}", f"ref:{kind}", f"ref_frame:{R}", f"parent:{P}", f"ref_form:{ref_form}"]
+    if kind != "tle":
+        cls += el_classes(el)
+    if R != P:
+        cls.append("ref-not-in-parent")
+    same = any(a["date"] == b["date"] for a, b in zip(case["ops"], case["ops"][1:]))
+    cls.append("same-date-twice" if same else "dates-alternate")
     return dict(nt=True, cls=cls, ratio=worst)
 
 
@@ -943,7 +1012,7 @@ FACETS = [
     Facet("projection", lambda s, t: projection_case(), check_projection, setup=setup,
           rule="every case", quick=(2, 800), thorough=(4, 8000)),
     Facet("attached_frame", lambda s, t: attached_case(), check_attached, setup=setup,
-          rule="every case (one frame registration each)", quick=(10, 25), thorough=(48, 30)),
+          rule="every case (one frame registration, 3-6 conversions each)", quick=(12, 25), thorough=(48, 30)),
     Facet("impulse_timing", lambda s, t: impulse_case(), check_impulse, setup=setup,
           rule="a maneuver date off the integration grid, or a hyperbolic state",
           quick=(8, 60), thorough=(16, 600)),
